@@ -837,3 +837,269 @@ def run_copy_loop_exits(run, P, units=('coap_subscribe.c',)):
                                       'the loop that copies the old file into the new one is left from inside its body here because of %s, and rename() is still reached: every '
                                       'record behind this point is missing from the file that replaces the good one' % why)
     run.require_count(n >= (3 if run.cfg == 'base' else 0) or run.fixture_mode, 'R-PERSIST (copy loop exits): fewer than 3 copy loops found in the updaters')
+
+
+# ---------------------------------------------------------------------------------------------------------------- C09 / C07
+def run_filter_field_recorded(run, P, fname='handle_response'):
+    """R-RESP (the filter records what it compares): a duplicate filter compares the received message id with a remembered one
+    (`rcvd->mid == session->last_ack_mid`) and, when it is not a duplicate, remembers the new id.  The first `S->G = <same id>` behind the
+    non-duplicate arm of a comparison with `S->F` has G == F: recording into the sibling field (`last_con_mid` in the ACK arm) leaves the
+    compared field stale - every duplicated piggy-backed response is delivered again (a second success response for a block-wise upload,
+    carrying the token libcoap put on the wire) - and poisons the sibling filter."""
+    from core.prog import dominators
+    run.rule('R-RESP')
+    if not P.has(fname):
+        raise AnalysisBroken('R-RESP (filter field): %s() not found' % fname)
+    f = P.func(fname)
+    dom = dominators(f)
+    B = f['B']
+    n = 0
+    for b in f['blocks']:
+        c = strip((b.get('term') or {}).get('cond'))
+        if not (isinstance(c, dict) and c.get('k') == 'bin' and c.get('op') in ('==', '!=') and len(b['succ']) == 2):
+            continue
+        sides = [(strip(c['l']), strip(c['r'])), (strip(c['r']), strip(c['l']))]
+        for fld, other in sides:
+            if isinstance(fld, dict) and fld.get('k') == 'mem' and fld.get('f', '').startswith('last_') and fld['f'].endswith('_mid') and ap(other):
+                nondup = b['succ'][1] if c['op'] == '==' else b['succ'][0]
+                # first recording assignments dominated by the non-duplicate arm
+                cands = []
+                for bb in f['blocks']:
+                    if nondup in dom.get(bb['id'], ()):
+                        for ev in bb['elems']:
+                            t = ev['e']
+                            if t.get('k') == 'asg' and t.get('op') == '=' and ev.get('top') and ap(t['r']) == ap(other):
+                                l = strip(t['l'])
+                                if isinstance(l, dict) and l.get('k') == 'mem' and l.get('f', '').startswith('last_') and l['f'].endswith('_mid'):
+                                    cands.append((len(dom[bb['id']]), ev, l['f']))
+                if not cands:
+                    continue
+                cands.sort(key=lambda x: x[0])
+                depth, ev, g = cands[0]
+                n += 1
+                run.instance('R-RESP', '%s: filter on ->%s records into ->%s' % (fname, fld['f'], g))
+                ok = g == fld['f']
+                run.oblige('R-RESP', ok, '%s:filter-records-compared-field' % fname)
+                if not ok:
+                    run.violation('R-RESP', fname, ev['loc'], 'filter-records-sibling-field:%s' % fld['f'],
+                                  'the duplicate filter compares the message id with ->%s but records the new id into ->%s: ->%s is never updated, so a duplicated message of this kind '
+                                  'is delivered again, and the sibling filter is fed an id it should not know' % (fld['f'], g, fld['f']))
+    run.require_count(n >= (2 if run.cfg == 'base' else 1) or run.fixture_mode, 'R-RESP (filter field): fewer than 2 duplicate filters found in %s()' % fname)
+
+
+def run_rst_for_any_type(run, P, helper='coap_send_message_type_lkd', sender='coap_send_internal'):
+    """R-RESP (a Reset answers any message type): the typed helper through which coap_send_rst_lkd() emits a Reset sends it whatever the type of the
+    message it answers - its transmission is not controlled by a test of `request->type` (only coap_send_ack_lkd() is specific to Confirmables).
+    A handler verdict of FAIL on a Non-confirmable response must still produce a Reset."""
+    run.rule('R-RESP')
+    if not P.has(helper):
+        raise AnalysisBroken('R-RESP (RST any type): %s() not found' % helper)
+    f = P.func(helper)
+    B = f['B']
+    n = 0
+    for b, ev in P.events(f):
+        if not any(isinstance(t, dict) and t.get('k') == 'call' and t.get('fn') == sender for t in walk(ev['e'])):
+            continue
+        n += 1
+        run.instance('R-RESP', '%s: emission at %s' % (helper, ev['loc'].rsplit(':', 1)[-1]))
+        bad = None
+        for (cb, idx) in transitive_control_deps(f, b['id']):
+            c = (B[cb].get('term') or {}).get('cond')
+            if c is not None and any(isinstance(y, dict) and y.get('k') == 'mem' and y.get('f') == 'type' and isinstance(strip(y.get('b')), dict) and 'pi' in strip(y['b']) for y in walk(c)):
+                bad = c
+        run.oblige('R-RESP', bad is None, '%s:emission-independent-of-type' % helper)
+        if bad is not None:
+            run.violation('R-RESP', helper, ev['loc'], 'typed-helper-emits-by-request-type',
+                          'the helper that emits Reset (and ACK) messages only transmits under `%s`: a Reset in answer to a Non-confirmable message - the FAIL verdict of a '
+                          'response handler, an unknown critical option - is silently not sent' % short(bad)[:60])
+        break
+    run.require_count(n >= 1 or run.fixture_mode, 'R-RESP (RST any type): %s() does not call %s()' % (helper, sender))
+
+
+# ---------------------------------------------------------------------------------------------------------------- C03
+def run_marker_whole_byte(run, P, macro='COAP_PAYLOAD_START', units=('coap_pdu.c', 'coap_option.c')):
+    """R-CODEC-TAB (12): the payload marker is recognised by comparing a whole byte with 0xFF.  Every constant in a comparison of the decoding units
+    that was written with COAP_PAYLOAD_START has the macro's own value: a folded `COAP_PAYLOAD_START >> 4` (15) compared with a shifted byte takes
+    every byte 0xF0..0xFE for the marker, so a reserved option delta nibble is accepted and the rest handed out as payload."""
+    run.rule('R-CODEC-TAB')
+    want = P.const_named(macro)
+    n = 0
+    for f in sorted(P.lib_funcs(), key=lambda f: f['name']):
+        if f['unit'] not in units:
+            continue
+        for b in f['blocks']:
+            c = (b.get('term') or {}).get('cond')
+            if c is None:
+                continue
+            for y in walk(c):
+                if isinstance(y, dict) and y.get('k') == 'int' and (y.get('mn') == macro or y.get('en') == macro):
+                    n += 1
+                    v = const_int(y)
+                    run.instance('R-CODEC-TAB', '%s: comparison with %s' % (f['name'], macro))
+                    ok = v == want
+                    run.oblige('R-CODEC-TAB', ok, '%s:marker-whole-byte' % f['name'])
+                    if not ok:
+                        run.violation('R-CODEC-TAB', f['name'], (b.get('term') or {}).get('loc') or f['loc'], 'marker-compared-in-part',
+                                      'a condition compares with a constant derived from %s that folds to %d, not 0x%X: only part of the byte is compared, so other bytes '
+                                      '(0xF0..0xFE: the reserved delta nibble) are taken for the payload marker' % (macro, v, want))
+    run.require_count(n >= (2 if run.cfg == 'base' else 1) or run.fixture_mode, 'R-CODEC-TAB (12): fewer than 2 comparisons with %s in the decoding units' % macro)
+
+
+# ---------------------------------------------------------------------------------------------------------------- C06
+def run_unlink_before_callout(run, P, inserter='coap_insert_node', node_rec='coap_queue_t'):
+    """R-OWN-NODE (unlinked before anything can insert): a loop that removes a node from the send queue through a predecessor pointer
+    (`*p = q->next`) unlinks it BEFORE it calls anything that can insert into that queue (computed: call closure reaches coap_insert_node -
+    coap_session_connected() releases a held Confirmable through coap_wait_ack()).  An insertion made while the doomed node is still linked
+    can land in front of it; the late unlink then cuts the new node out as well: it is sent once, never retransmitted, never reported."""
+    from rules.r_sizefill import natural_loops
+    run.rule('R-OWN-NODE')
+    cg = P.callgraph()
+    ins = {inserter}
+    changed = True
+    while changed:
+        changed = False
+        for fn, cs in cg.items():
+            if fn not in ins and cs & ins:
+                ins.add(fn)
+                changed = True
+    n = 0
+    for f in sorted(P.lib_funcs(), key=lambda f: f['name']):
+        unl = []
+        for b, ev in P.events(f):
+            t = ev['e']
+            if t.get('k') == 'asg' and t.get('op') == '=' and ev.get('top'):
+                l, r = strip(t['l']), strip(t['r'])
+                if isinstance(l, dict) and l.get('k') == 'un' and l.get('op') == '*' and isinstance(r, dict) and r.get('k') == 'mem' and r.get('f') == 'next' and r.get('rec') == node_rec:
+                    unl.append((b['id'], ev))
+        if not unl:
+            continue
+        try:
+            loops = natural_loops(f)
+        except KeyError:
+            continue
+        name = f['name']
+        B = f['B']
+        for ub, uev in unl:
+            body = None
+            for h, bd in loops.items():
+                if ub in bd and (body is None or len(bd) < len(body[1])):
+                    body = (h, bd)
+            if body is None:
+                continue
+            h, bd = body
+            n += 1
+            run.instance('R-OWN-NODE', '%s: unlink through a predecessor pointer at %s' % (name, uev['loc'].rsplit(':', 1)[-1]))
+            bad = None
+            for bid in bd:
+                for i, ev in enumerate(B[bid]['elems']):
+                    for t in walk(ev['e']):
+                        if isinstance(t, dict) and t.get('k') == 'call' and t.get('fn') in ins:
+                            # does the unlink come after this call within one iteration (no pass through the header)?
+                            if bid == ub:
+                                ui = [k for k, e in enumerate(B[bid]['elems']) if e is uev][0]
+                                if i < ui:
+                                    bad = (ev, t['fn'])
+                                continue
+                            seen, work = set(), [s_ for s_ in succs(B[bid]) if s_ in bd and s_ != h]
+                            while work:
+                                x = work.pop()
+                                if x in seen:
+                                    continue
+                                seen.add(x)
+                                work.extend(s_ for s_ in succs(B[x]) if s_ in bd and s_ != h)
+                            if ub in seen:
+                                bad = (ev, t['fn'])
+            run.oblige('R-OWN-NODE', bad is None, '%s:unlink-before-insert' % name)
+            if bad:
+                run.violation('R-OWN-NODE', name, uev['loc'], 'unlinked-after-possible-insert:%s' % bad[1],
+                              'the node is unlinked through the predecessor pointer only after %s() was called (%s), which can insert a node into the same queue: an entry linked in '
+                              'front of the doomed node in between is cut out with it - transmitted once, never retransmitted, never reported' % (bad[1], bad[0]['loc'].rsplit('/', 1)[-1]))
+    run.require_count(n >= 1 or run.cfg != 'base' or run.fixture_mode, 'R-OWN-NODE (unlink before call-out): no unlink through a predecessor pointer found')
+
+
+# ---------------------------------------------------------------------------------------------------------------- C14
+def run_rekey_complete(run, P, derive='oscore_build_key', updater='oscore_update_ctx'):
+    """R-OSC-ROLE (re-keying derives everything again): the fields of the security context that are derived with oscore_build_key() are computed
+    from the library as a whole (every field name that is assigned from that call anywhere: sender_key, recipient_key, common_iv).  The function
+    that moves a context to a new ID Context (oscore_update_ctx, Appendix B.2) assigns each of them from a new derivation: a context that
+    advertises the new ID Context but keeps the Common IV of the old one protects messages no other RFC 8613 implementation can open."""
+    run.rule('R-OSC-ROLE')
+    if not P.has(updater):
+        raise AnalysisBroken('R-OSC-ROLE (re-keying): %s() not found' % updater)
+
+    def derived(f):
+        out = {}
+        for b, ev in P.events(f):
+            t = ev['e']
+            if t.get('k') == 'asg' and t.get('op') == '=':
+                l = strip(t['l'])
+                if isinstance(l, dict) and l.get('k') == 'mem' and any(isinstance(y, dict) and y.get('k') == 'call' and y.get('fn') == derive for y in walk(t['r'])):
+                    out[l['f']] = ev['loc']
+            # a temporary that receives the derivation and is stored into the field afterwards
+        tmp = {}
+        for b, ev in P.events(f):
+            t = ev['e']
+            if t.get('k') == 'asg' and t.get('op') == '=' and ap(t['l']) and isinstance(strip(t['l']), dict) and strip(t['l']).get('k') == 'var' \
+                    and any(isinstance(y, dict) and y.get('k') == 'call' and y.get('fn') == derive for y in walk(t['r'])):
+                tmp[ap(t['l'])] = 1
+        for b, ev in P.events(f):
+            t = ev['e']
+            if t.get('k') == 'asg' and t.get('op') == '=' and ap(t['r']) in tmp:
+                l = strip(t['l'])
+                if isinstance(l, dict) and l.get('k') == 'mem':
+                    out[l['f']] = ev['loc']
+        return out
+    allf = {}
+    for f in P.lib_funcs():
+        if f['name'] != updater:
+            allf.update(derived(f))
+    upd = derived(P.func(updater))
+    if len(allf) < 2:
+        raise AnalysisBroken('R-OSC-ROLE (re-keying): fewer than 2 derived fields found in the library')
+    for fld in sorted(allf):
+        run.instance('R-OSC-ROLE', '%s derives ->%s again' % (updater, fld))
+        ok = fld in upd
+        run.oblige('R-OSC-ROLE', ok, '%s:rederives:%s' % (updater, fld))
+        if not ok:
+            run.violation('R-OSC-ROLE', updater, P.func(updater)['loc'], 'derived-field-not-rederived:%s' % fld,
+                          '->%s is derived with %s() when a context is built (%s) but %s(), which moves the context to a new ID Context, does not derive it again: the context '
+                          'keeps a value that belongs to the old ID Context' % (fld, derive, allf[fld].rsplit('/', 1)[-1], updater))
+
+
+# ---------------------------------------------------------------------------------------------------------------- C19
+def run_sibling_deadline_tests(run, P):
+    """R-TIMER-REC (sibling deadline tests agree): where one function compares a deadline variable with `now` at several places (the client-
+    session loop and the server-session loop of coap_io_prepare_io_lkd() both ask whether the (D)TLS retransmission timer is due), the
+    comparisons - brought into the form `deadline OP now` - use the same operator.  coap_dtls_get_timeout() returns exactly `now` for a
+    timer that is due: `<` where the sibling says `<=` never fires, the lost handshake flight is never retransmitted and the handshake never
+    abandoned (queued Confirmables get no NACK)."""
+    run.rule('R-TIMER-REC')
+    SW = {'<': '>', '>': '<', '<=': '>=', '>=': '<='}
+    n = 0
+    for f in sorted(P.lib_funcs(), key=lambda f: f['name']):
+        groups = collections.defaultdict(list)
+        for b in f['blocks']:
+            c = strip((b.get('term') or {}).get('cond'))
+            if not (isinstance(c, dict) and c.get('k') == 'bin' and c.get('op') in SW):
+                continue
+            l, r = strip(c['l']), strip(c['r'])
+            if not (isinstance(l, dict) and isinstance(r, dict) and l.get('k') == 'var' and r.get('k') == 'var'):
+                continue
+            if r.get('n') == 'now':
+                groups[l.get('n')].append((c['op'], b))
+            elif l.get('n') == 'now':
+                groups[r.get('n')].append((SW[c['op']], b))
+        for var, occ in sorted(groups.items()):
+            if len(occ) < 2:
+                continue
+            n += 1
+            run.instance('R-TIMER-REC', '%s: %d tests of %s against now' % (f['name'], len(occ), var))
+            ops = collections.Counter(o for o, _b in occ)
+            ok = len(ops) == 1
+            run.oblige('R-TIMER-REC', ok, '%s:%s:sibling-deadline-tests' % (f['name'], var))
+            if not ok:
+                desc = ', '.join('`%s %s now` at line %s' % (var, o, ((b_.get('term') or {}).get('loc') or '?').rsplit(':', 1)[-1]) for o, b_ in occ)
+                run.violation('R-TIMER-REC', f['name'], (occ[0][1].get('term') or {}).get('loc') or f['loc'], 'deadline-tests-disagree:%s' % var,
+                              'the tests of the deadline %s against now in this function disagree (%s): one of them treats a timer that is due exactly now differently, so on '
+                              'one route it never fires (or fires a tick early)' % (var, desc))
+    run.require_count(n >= 1 or run.cfg != 'base' or run.fixture_mode, 'R-TIMER-REC (sibling deadline tests): no deadline compared twice with now in one function')
